@@ -84,7 +84,7 @@ def run(ctx):
         elif r < 0.36: metas[rng.randrange(npatch)]['values'].append(1)
         doc = {'metadata': {'references': {'hepdata': 'ins1234567'}, 'description': 'generated', 'digests': {'sha256': 'a' * 64},
                             'labels': [f'l{k}' for k in range(nl)]},
-               'patches': [{'metadata': m, 'patch': [{'op': 'add', 'path': '/foo', 'value': k}]} for k, m in enumerate(metas)],
+               'patches': [{'metadata': m, 'patch': ([] if rng.random() < 0.25 else [{'op': 'add', 'path': '/foo', 'value': k}])} for k, m in enumerate(metas)],
                'version': '1.0.0'}
         frozen = copy.deepcopy(doc)
         try:
@@ -127,8 +127,19 @@ def run(ctx):
                         want = j
                 if g != want:
                     ctx.fail('C17/lookup', 'lookup does not return exactly the patch with that name / value tuple (or raise)', dict(inp, key=k), g, want)
-            if isinstance(keys[1], list) and ps[keys[1]] is not ps[tuple(keys[1])]:
-                ctx.fail('C17/list-vs-tuple', 'list and tuple keys give different patches', inp)
+            try:
+                if isinstance(keys[1], list) and ps[keys[1]] is not ps[tuple(keys[1])]:
+                    ctx.fail('C17/list-vs-tuple', 'list and tuple keys give different patches', inp)
+            except pyhf.exceptions.InvalidPatchLookup:
+                pass   # reported by C17/lookup above
+            for j, m in enumerate(metas):
+                try:
+                    direct = ps[m['name']].apply({'bar': 1})
+                    wantd = dict({'bar': 1}, foo=j) if frozen['patches'][j]['patch'] else {'bar': 1}
+                    if direct != wantd:
+                        ctx.fail('C17/patch-content', 'the patch found under a name does not carry its own operations', dict(inp, key=m['name']), direct, wantd)
+                except pyhf.exceptions.InvalidPatchLookup:
+                    pass   # reported by C17/lookup above
             if len(ps) != npatch or [p.name for p in ps] != names:
                 ctx.fail('C17/iteration', '__iter__/__len__ do not enumerate the patches in order', inp)
             if npatch >= 2: ctx.nontrivial(json.dumps(metas, sort_keys=True))
@@ -182,3 +193,18 @@ def run(ctx):
                 ctx.fail('C17/verify-corruption', 'a single-leaf corruption of the workspace passes verification', {'path': list(path), 'value': val})
             except pyhf.exceptions.PatchSetVerificationError:
                 pass
+        # histories: the same object, corrupted in place after a successful verification, then restored
+        for path, val in rng.sample(lv, min(6, len(lv))):
+            newv = (val + 1) if isinstance(val, (int, float)) and not isinstance(val, bool) else (str(val) + 'x' if val is not None else 0)
+            set_path(ws, path, newv); ctx.count()
+            for what, call in (('verify', lambda: ps.verify(ws)), ('apply', lambda: ps.apply(ws, 'name'))):
+                try:
+                    call()
+                    ctx.fail('C17/verify-history', f'{what} accepts a workspace corrupted in place after an earlier successful verification', {'path': list(path), 'value': val, 'workspace': frozen})
+                except pyhf.exceptions.PatchSetVerificationError:
+                    pass
+            set_path(ws, path, val)
+            try:
+                ps.verify(ws)
+            except pyhf.exceptions.PatchSetVerificationError:
+                ctx.fail('C17/verify-history', 'the restored workspace no longer verifies', {'path': list(path), 'value': val, 'workspace': frozen})
